@@ -12,6 +12,7 @@ mod model;
 mod c01;
 mod c02;
 mod c03;
+mod c03c;
 mod c04;
 mod c05;
 mod c06;
@@ -56,6 +57,7 @@ fn main() {
         "c02-lin" => c02::lin_leg(&args),
         "c02-conn" => c02::conn_leg(&args),
         "c03-twin" => c03::twin_leg(&args),
+        "c03-conn" => c03c::conn_twin_leg(&args),
         "c04-pipeline" => c04::pipeline_leg(&args),
         "c04-malformed" => c04::malformed_leg(&args),
         "c04-reuse" => c04::reuse_leg(&args),
